@@ -9,7 +9,7 @@ Ids == 1..MaxN
 Free == Ids \ Live(h)
 LeastFree == CHOOSE x \in Free : \A y \in Free : x <= y
 Base == [op |-> "none", a |-> 0, b |-> 0, k |-> 0, i |-> 0, cnt |-> 0, kind |-> "l", tok |-> 0, deflt |-> 0,
-         newids |-> <<>>, path |-> <<>>, ret |-> 0, dead |-> {}, fired |-> {}]
+         newids |-> <<>>, path |-> <<>>, from |-> <<>>, ret |-> 0, dead |-> {}, fired |-> {}]
 Held == {x \in Live(h) : h.n[x].held > 0}
 Givable == Held \cup {0}
 RECURSIVE FreeSeq(_, _)
@@ -34,7 +34,13 @@ AllCands ==
     \cup {[Base EXCEPT !.op = "ptrset", !.a = a, !.b = b, !.path = p] : a \in Held, b \in Givable,
              p \in {<<[t |-> "k", v |-> 1]>>, <<[t |-> "i", v |-> 0]>>, <<[t |-> "-", v |-> 0]>>,
                     <<[t |-> "k", v |-> 1], [t |-> "i", v |-> 0]>>, <<[t |-> "i", v |-> 0], [t |-> "k", v |-> 1]>>}}
-Cands == {c \in AllCands : c.op \in Ops}
+PatchPaths == {<<[t |-> "k", v |-> 1]>>, <<[t |-> "i", v |-> 0]>>, <<[t |-> "i", v |-> 1]>>, <<[t |-> "-", v |-> 0]>>,
+               <<[t |-> "k", v |-> 1], [t |-> "k", v |-> 1]>>, <<[t |-> "k", v |-> 1], [t |-> "i", v |-> 0]>>,
+               <<[t |-> "i", v |-> 0], [t |-> "k", v |-> 1]>>}
+PatchCands ==
+    {[Base EXCEPT !.op = "premove", !.a = a, !.path = p] : a \in Held, p \in PatchPaths}
+    \cup {[Base EXCEPT !.op = "pmove", !.a = a, !.path = p, !.from = f] : a \in Held, p \in PatchPaths, f \in PatchPaths}
+Cands == {c \in AllCands \cup PatchCands : c.op \in Ops}
 Init == h = [n |-> <<>>] /\ last = Base
 Next == \E c \in Cands : LET r == Apply(h, c) IN
             /\ r.ok /\ h' = r.h
@@ -45,7 +51,10 @@ HView == h
 Inv == RcConsistent(h) /\ NoDangling(h) /\ AliveIffOwned(h) /\ Positive(h)
 \* put reports 'freed' exactly when the node died in that call; a failed call destroys nothing
 PutReport == [][(last'.op = "put") => ((last'.ret = 1) <=> (last'.a \notin Live(h')))]_vars
-FailureKeeps == [][(last'.ret = -1) => (h' = h /\ last'.dead = {})]_vars
+\* (a patch applied in place is documented to leave the document partially modified on failure)
+FailureKeeps == [][(last'.ret = -1 /\ last'.op # "pmove") => (h' = h /\ last'.dead = {})]_vars
+\* move relocates: it never destroys or creates the moved value, only a value it replaces or, on failure, loses
+MoveKeepsIdentity == [][(last'.op = "pmove" /\ last'.ret = 0) => Cardinality(last'.dead) <= Cardinality(Live(h)) - Cardinality(Live(h'))]_vars
 \* nothing is destroyed while still owned, everything destroyed was alive
 DeadWasLive == [][last'.dead \subseteq Live(h) /\ last'.dead \cap Live(h') = {}]_vars
 ====
